@@ -195,13 +195,17 @@ func Execute(c *Case, chooser func(i int) sched.Chooser, record func(i int, star
 		if ex.Driver == "vet" {
 			out, st, err = driver.RunVet(w, &ex, chooser(i))
 		} else {
-			l := loaded[spec.Variant]
+			lk := fmt.Sprintf("%s/%d", spec.Variant, ex.ParseSeed)
+			l := loaded[lk]
 			if l == nil {
-				l, err = driver.LoadAll(w)
+				l, err = driver.LoadAllOrder(w, ex.ParseSeed)
 				if err != nil {
 					return nil, 0, core.Infra("variant %s: %v", spec.Variant, err)
 				}
-				loaded[spec.Variant] = l
+				loaded[lk] = l
+			}
+			if ex.ParseSeed != 0 {
+				agg.Inc("fault.permuted_parse_order")
 			}
 			out, st, err = driver.RunChecker(l, &ex, chooser(i))
 		}
@@ -253,16 +257,16 @@ func Execute(c *Case, chooser func(i int) sched.Chooser, record func(i int, star
 			baseOut = out
 		}
 		may := whoMayChange(c.World, spec.Variant)
-		roots := append([]string(nil), ex.Roots...)
+		roots := w.OutcomePaths(ex.Roots)
 		sort.Strings(roots)
 		for _, p := range roots {
-			if c.World.Index(p) < 0 {
+			if c.World.Index(strings.TrimSuffix(p, "_test")) < 0 {
 				continue // the extra unrelated package
 			}
 			s := out.PkgString(p)
 			log.Str(p)
 			log.Str(s)
-			if spec.Variant == "sibling" || may[p] {
+			if spec.Variant == "sibling" || may[p] || may[strings.TrimSuffix(p, "_test")] {
 				continue
 			}
 			rf, ok := refs[p]
@@ -271,6 +275,9 @@ func Execute(c *Case, chooser func(i int) sched.Chooser, record func(i int, star
 				continue
 			}
 			agg.Inc("outcome_comparisons")
+			if strings.HasSuffix(p, "_test") && s != "" {
+				agg.Inc("probe.external_test_package_outcome_compared_nonempty")
+			}
 			if rf.str != s {
 				sig := "outcome-depends-on-driver-or-run-set"
 				what := "driver / transport / run set / order"
